@@ -202,6 +202,19 @@ class Check:
         ob.wall = time.time() - ob.t0
         log(f'{self.prop} {name}: {ob.status}{" (" + ob.reason + ")" if ob.reason else ""} paths={ob.paths} queries={ob.queries} cand={len(ob.candidates)} {ob.wall:.1f}s')
 
+    # -- translator validation: the same concrete case through the interpreter and through the native build must agree
+    def validate(self, name, interp_result, scenario, native_view):
+        res = self.replay.run(scenario); self.replays += 1
+        self.validations = getattr(self, 'validations', 0) + 1
+        try:
+            nat = native_view(res)
+        except Exception as e:
+            nat = f'<native_view error {e}>'
+        if nat != interp_result:
+            self.validation_failures = getattr(self, 'validation_failures', []) + [{'case': name, 'interpreter': repr(interp_result), 'native': repr(nat), 'scenario': scenario}]
+            log(f'  TRANSLATOR VALIDATION MISMATCH {name}: interpreter {interp_result!r} vs native {nat!r}')
+        return nat == interp_result
+
     # -- finishing
     def finish(self):
         # replay candidates; group by role so that one role is replayed a few times, not thousands
@@ -250,6 +263,10 @@ class Check:
                     out_lines.append(f'VIOLATION property={self.prop} replay={fname}')
                     log(f'  violation [{role}] {confirmed["what"]}')
         self.replay.close()
+        if getattr(self, 'validation_failures', None):
+            ob = Obligation(self, 'translator-validation', 'concrete cases must give the same result in the MIR interpreter and in the native build', {})
+            ob.inconclusive(f'{len(self.validation_failures)} concrete case(s) disagree between interpreter and native build: {self.validation_failures[0]}')
+            self.obls.append(ob)
         inconcl = [ob for ob in self.obls if ob.status == 'inconclusive']
         self.write_evidence(inconcl)
         for l in out_lines: print(l)
@@ -294,7 +311,8 @@ class Check:
                 'functions_encoded': fnset, 'models_trusted': models,
                 'solver_s': round(sum(o.solver_s for o in self.obls), 3), 'queries': queries, 'paths': paths,
                 'sat': sum(o.sat for o in self.obls), 'unsat': sum(o.unsat for o in self.obls),
-                'native_replays': self.replays,
+                'native_replays': self.replays, 'translator_validation_cases': getattr(self, 'validations', 0),
+                'translator_validation_mismatches': getattr(self, 'validation_failures', []),
                 'known_findings_matched': sorted(self.known_hit), 'fixed_entries': self.fixed,
                 'inconclusive': [{'obligation': o.name, 'reason': o.reason} for o in inconcl],
                 'obligation_details': obls,
